@@ -41,6 +41,8 @@ def make_table(rng, nmodels=None, allow_altloc=True, allow_blank_chain=False):
         model_ids = [rng.choice([1, 1, 1, 3, 17])]
     else:
         model_ids = sorted(rng.sample([1, 2, 3, 4, 5, 7, 12], nmodels))
+        if rng.random() < 0.3:
+            rng.shuffle(model_ids)  # models listed out of numeric order
         if rng.random() < 0.5:
             model_ids = list(range(1, nmodels + 1))
     nchains = rng.choice([1, 2, 2, 3])
